@@ -1209,7 +1209,7 @@ def fam_C14(rng, tier):
             c2 = (cfg[0], cfg[1], m)
             out.append(Case([cfg_line(c2)] + lines[1:], 'three-maps', ('maps_agree',),
                             {'cfg': c2, 'group': gi}))
-    return out
+    return (out) + map_level(rng, tier)
 
 
 def fam_C15(rng, tier):
@@ -1242,7 +1242,7 @@ def fam_C15(rng, tier):
             out.append(Case(lines, 'faults' + ('-huge-N' if huge else ''), ('wellformed', 'error_atomic'),
                             {'cfg': cfg}))
     out += motif_histories(rng, tier)
-    return (out) + unit_elements(rng, tier)
+    return ((out) + unit_elements(rng, tier)) + map_level(rng, tier)
 
 
 def fam_C16(rng, tier):
@@ -1316,6 +1316,78 @@ def fam_C16(rng, tier):
         lines.append('dump 0 1 2 3')
         out.append(Case(lines, 'threads-%d' % nthreads, ('memo', 'no_deadlock', 'conc_memoises'), {'cfg': cfg, 'threads': nthreads}))
     out += conc_heavy(rng, tier)
+    return out
+
+
+def map_level(rng, tier):
+    """the three update-map types driven directly through the public `UpdateMap` trait (insert,
+    get, get_mut_with, len, is_empty, max_index, for_each_range with early exit and with an error,
+    ==, clone), then handed to `bulk_update`. (`for_each_range` is only called with start <= end: for
+    start > end the BTreeMap implementation panics inside `BTreeMap::range` while the Vec-backed ones
+    return Ok — no collection operation calls it that way, and the properties speak about
+    collections.)"""
+    out = []
+    for cfg in pick_configs(rng, scale(tier, 40, 240)):
+        kind, N, m = cfg
+        r = sub(rng)
+        big = (m == 'btree')
+        def key():
+            c = [r.randrange(0, 12), r.randrange(0, 12), r.randrange(0, 40), r.randrange(0, 300)]
+            if big:
+                c += [2 ** 32 + r.randrange(4), 2 ** 63, 2 ** 64 - 1, 2 ** 64 - 2]
+            else:
+                c += [4095, r.randrange(300, 4096)]
+            return r.choice(c)
+        lines = [cfg_line(cfg), 'mnew 0', 'mcap 1 %d' % r.choice([0, 1, 8, 100]), 'misempty 0', 'misempty 1', 'mlen 1',
+                 'mmax 0', 'mmax 1', 'meq 0 1']
+        for _ in range(r.randint(8, 30)):
+            mi = r.choice([0, 0, 1, 2])
+            if mi == 2 and not any(l.startswith('mclone') for l in lines):
+                lines.append('mclone %d 2' % r.choice([0, 1]))
+            c = r.randrange(12)
+            if c <= 2:
+                lines.append('mins %d %d %s' % (mi, key(), val(r, kind)))
+            elif c == 3:
+                lines.append('mget %d %d' % (mi, key()))
+            elif c <= 5:
+                lines.append('mgm %d %d %s %s' % (mi, key(), r.choice(['none', val(r, kind), val(r, kind)]), val(r, kind)))
+            elif c == 6:
+                lines += ['mlen %d' % mi, 'misempty %d' % mi, 'mmax %d' % mi]
+            elif c <= 8:
+                a = key(); b = key()
+                if a > b:
+                    a, b = b, a
+                b = min(r.choice([b, b + 1, a, 2 ** 64 - 1 if big else 4096]), 2 ** 64 - 1)
+                if a > b:
+                    a, b = b, a
+                tail = r.choice(['', '', ' brk %d' % r.randint(1, 4), ' err %d' % r.randint(1, 4)])
+                lines.append('mrange %d %d %d%s' % (mi, a, b, tail))
+            elif c == 9:
+                lines.append('meq %d %d' % (mi, r.choice([0, 1, 2]) if any(l.startswith('mclone') for l in lines) else r.choice([0, 1])))
+            elif c == 10:
+                lines.append('mclone %d 2' % r.choice([0, 1]))
+            else:
+                lines.append('mget %d %d' % (mi, key()))
+            if r.random() < 0.25:
+                lines.append('mrange %d 0 %d' % (mi, 2 ** 64 - 1 if big else 4096))
+        # hand the maps to bulk_update
+        n = r.randint(0, min(N, 12))
+        xs = [val(r, kind) for _ in range(n)]
+        for mi in (0, 1):
+            lines += ['new %d list %s' % (5 + mi, ' '.join(xs)), 'mbulk %d %d' % (5 + mi, mi), 'len %d' % (5 + mi),
+                      'pending %d' % (5 + mi), 'tovec %d' % (5 + mi), 'wf %d' % (5 + mi), 'apply %d' % (5 + mi),
+                      'tovec %d' % (5 + mi), 'root %d' % (5 + mi)]
+        # a map built to be admissible: overwrite some, extend contiguously
+        lines.append('mnew 3')
+        for i in r.sample(range(n), min(n, r.randint(0, 3))) if n else []:
+            lines.append(r.choice(['mins 3 %d %s' % (i, val(r, kind)), 'mgm 3 %d %s %s' % (i, xs[i], val(r, kind))]))
+        ext = list(range(n, min(N, n + r.randint(0, 3))))
+        r.shuffle(ext)
+        for i in ext:
+            lines.append('mins 3 %d %s' % (i, val(r, kind)))
+        lines += ['new 7 list ' + ' '.join(xs), 'mbulk 7 3', 'len 7', 'tovec 7', 'wf 7', 'apply 7', 'tovec 7', 'root 7',
+                  'mbulk 7 3', 'len 7', 'apply 7', 'tovec 7']
+        out.append(Case(lines, 'map-level', ('wellformed',), {'cfg': cfg}))
     return out
 
 
